@@ -21,7 +21,7 @@ CASE_ALARM_S = 120
 
 def spec_table(tier):
     out = []
-    vks = [["boxed", "lower"], ["upper", "boxed"], ["boxed", "boxed"], ["fixed", "boxed"]]
+    vks = [["boxed", "lower"], ["upper", "boxed"], ["boxed", "boxed"], ["fixed", "boxed"], ["odd", "odd"]]
     rowsets = [[], [("affine", "ranged")], [("sphere", "upper")], [("bilinear", "eq0")], [("affine", "eqoff"), ("sphere", "ranged")]]
     objs = ["qdiag", "logbar", "rosen"] if tier == "quick" else ["qdiag", "logbar", "rosen", "cubic", "exp"]
     for vk in vks:
